@@ -8,8 +8,8 @@ CONSTANTS
   TargetNames <- N_small
   TargetPowers <- P_pm1
   MaxTFactors = 1
-  ScaleKs <- K_one
-  Kinds = {"list", "dict", "objarray", "array", "array2d"}
+  ScaleKs <- K_zero
+  Kinds = {"list", "dict", "objarray", "array", "array2d", "empty_list", "empty_dict"}
   PerturbNames <- N_base
   RegPool <- Regs2s
   Keys = {"energy"}
